@@ -365,6 +365,93 @@ func reuseportAcceptWorld(et bool) *world {
 	return w
 }
 
+// backpressureWorld: a persistent, real EAGAIN instead of an injected one. The victim's peer never
+// reads, the victim's handler buffers far more than the socket takes and the connection is then
+// closed (Close action / Conn.Close / Engine-side close after an injected read error) while its
+// socket is still full. Closing it must not stall the loop: a bystander connection on the same
+// loop completes its echo exchange while the victim's peer is still holding its socket unread.
+func backpressureWorld(et bool, how string) *world {
+	w := newWorld("fault-backpressure/" + how)
+	if et {
+		w.opts = append(w.opts, WithEdgeTriggeredIO(true))
+	}
+	w.opts = append(w.opts, WithReadBufferCap(1024), WithWriteBufferCap(1024))
+	victimSeen := false
+	victimFd := -1
+	if how == "read-error" {
+		w.deviate = func(site string, fd int, n int) []string {
+			if site == "read" && victimSeen && fd == victimFd {
+				return []string{"ECONNRESET"}
+			}
+			return nil
+		}
+	}
+	w.onTraffic = func(w *world, ci *connInfo) Action {
+		b, _ := ci.c.Next(-1)
+		ci.consumed = append(ci.consumed, b...)
+		if len(b) > 0 && b[0] == 'V' {
+			victimSeen = true
+			victimFd = ci.fd
+			_, _ = ci.c.Write(make([]byte, 512*1024)) // far more than the socket takes: stays buffered
+			switch how {
+			case "close-action":
+				return Close
+			case "conn-close":
+				_ = ci.c.Close()
+			}
+			return None
+		}
+		_, _ = ci.c.Write(b)
+		return None
+	}
+	var by *faultPeer
+	w.script = func(w *world) {
+		done := 0
+		byDone := false
+		w.peerThread("victim-peer", &done, func(p *peer) {
+			if p.connect() {
+				p.send([]byte("V"))
+				if how == "read-error" {
+					sched.BlockUntil(func() bool { return victimSeen })
+					p.send([]byte("W")) // the next read(2) on the victim fails (injected), the engine closes it
+				}
+				// hold the socket, unread, until the bystander has been served
+				sched.BlockUntil(func() bool { return byDone })
+				p.close()
+			}
+		})
+		by = &faultPeer{p: w.newPeer(), msgs: [][]byte{echoMsg(1, 0, 5), echoMsg(1, 1, 700)}}
+		sched.Go("bystander-peer", func() {
+			defer func() { done++; byDone = true }()
+			w.waitBoot()
+			sched.BlockUntil(func() bool { return victimSeen })
+			by.run()
+		})
+		w.ctl(&done, 2, nil)
+	}
+	w.checks = append(w.checks, checkEnd, func(w *world, out *sched.Outcome) (string, string) {
+		if !w.runDone || w.runErr != nil {
+			return fmt.Sprintf("closing a connection whose socket is full brought the engine down (Run done=%v err=%v end=%s blocked=%v)", w.runDone, w.runErr, out.End, out.Blocked), "fault:backpressure-engine"
+		}
+		if !by.complete || !bytes.Equal(by.p.got, bytes.Join(by.msgs, nil)) {
+			return fmt.Sprintf("while a connection with a full socket was being closed the bystander connection was not served: received %d bytes (eof=%v err=%v)", len(by.p.got), by.p.eof, by.p.rerr), "fault:backpressure-bystander"
+		}
+		for _, ci := range w.conns {
+			if ci.opens != 1 || ci.closes != 1 || len(ci.afterClose) > 0 {
+				return fmt.Sprintf("connection #%d lifecycle broken: opens=%d closes=%d after-close=%v", ci.id, ci.opens, ci.closes, ci.afterClose), "fault:lifecycle:backpressure"
+			}
+		}
+		if len(mcsys.L.Violations) > 0 {
+			return mcsys.L.Violations[0], "fault:" + mcsys.L.Sigs[0]
+		}
+		if open := mcsys.OpenFrameworkFds(); len(open) > 0 {
+			return fmt.Sprintf("descriptors are still open after Run returned: %v", open), "fault:fdleak:backpressure"
+		}
+		return "", ""
+	})
+	return w
+}
+
 func faultSchedConfigs() ([]sched.Config, func(string) *sched.Config) {
 	thorough := seqmc.Tier() == "thorough"
 	bounds := []sched.Bound{{PB: 0, DB: 0}, {PB: 0, DB: 1}, {PB: 0, DB: 2}, {PB: 1, DB: 1}}
@@ -385,6 +472,18 @@ func faultSchedConfigs() ([]sched.Config, func(string) *sched.Config) {
 		name := "fault-reuseport-accept/tcp/" + map[bool]string{false: "LT", true: "ET"}[et]
 		out = append(out, sched.Config{Property: "C18", Name: name, Bounds: []sched.Bound{{PB: 0, DB: 0}, {PB: 0, DB: 1}, {PB: 0, DB: 2}}, Horizon: 40000, Deadline: seqmc.Deadline(), DelayBounded: true, TolerateNondeterminism: true,
 			New: func() sched.Scenario { w := reuseportAcceptWorld(et); w.name = name; return w }})
+	}
+	for _, et := range []bool{false, true} {
+		for _, how := range []string{"close-action", "conn-close", "read-error"} {
+			et, how := et, how
+			name := "fault-backpressure/" + how + "/" + map[bool]string{false: "LT", true: "ET"}[et]
+			bb := []sched.Bound{{PB: 0, DB: 0}, {PB: 1, DB: 0}}
+			if how == "read-error" {
+				bb = []sched.Bound{{PB: 0, DB: 0}, {PB: 0, DB: 1}, {PB: 1, DB: 1}}
+			}
+			out = append(out, sched.Config{Property: "C18", Name: name, Bounds: bb, Horizon: 40000, Deadline: seqmc.Deadline(), DelayBounded: true,
+				New: func() sched.Scenario { w := backpressureWorld(et, how); w.name = name; return w }})
+		}
 	}
 	for _, loops := range []int{1, 2} {
 		loops := loops
